@@ -53,7 +53,9 @@ UPLOAD_KINDS = ["synth_v", "synth_v2", "synth_a", "synth_t", "synth_venc", "fix_
 MPS_NAMES = ["mps1", "mpsA", "mpsB", "mp.s-C"]
 TITLES = ["first title", "second title", "T<&>\"'", "x" * 60]
 LANGS = ["eng", "fra", "und", "zz-invalid-tag-zz"]
-KIDS = ["11" * 16, "22" * 16, "1ab45440532c439994dc5c5ad9584bac", "00112233445566778899aabbccddeeff", "AB" * 16]
+KIDS = ["11" * 16, "22" * 16, "1ab45440532c439994dc5c5ad9584bac", "00112233445566778899aabbccddeeff", "AB" * 16,
+        # the same 16 bytes in another spelling (the form's pattern allows [A-Fa-f0-9]{32}): still the same key id
+        "ab" * 16, "1AB45440532C439994DC5C5AD9584BAC", "00112233445566778899AaBbCcDdEeFf"]
 KEYS = {"valid": "5a" * 16, "valid2": "6b" * 16, "none": None, "short": "abcd", "nothex": "zz" * 16}
 NEVER = 900000
 
@@ -709,7 +711,10 @@ class Histories(Engine):
             st.tuples(st.just("edit_media"), ref, st.integers(1, 4), st.integers(0, 3)),
             st.tuples(st.just("edit_media"), st.tuples(st.just("last"), st.integers(0, 2)), st.integers(1, 4), st.integers(0, 3)),
             st.tuples(st.just("delete_media"), ref, how3),
-            st.tuples(st.just("add_key"), st.integers(0, 4), st.sampled_from(["valid", "valid2", "none", "short", "nothex"]),
+            st.tuples(st.just("add_key"), st.one_of(st.integers(0, 4), st.integers(0, 7)), st.sampled_from(["valid", "valid2", "none", "short", "nothex"]),
+                      st.sampled_from(["put", "form"])),
+            # the same key id in two spellings (one of them is the id an encrypted fixture file uses)
+            st.tuples(st.just("add_key"), st.sampled_from([2, 6, 4, 5, 3, 7]), st.sampled_from(["valid", "valid2"]),
                       st.sampled_from(["put", "form"])),
             st.tuples(st.just("edit_key"), ref, st.sampled_from(["valid", "valid2", "short", "nothex"]), st.integers(0, 1)),
             st.tuples(st.just("delete_key"), ref, st.sampled_from(["api", "form"])),
